@@ -55,7 +55,7 @@ def j_get(hl, dl, two=False):
 NAMES = ("a", "b")
 VALUES = ("1", "2")
 DOMAINS = ("x.com", "X.Com", ".x.com", "s.x.com", "ax.com", "com", None)
-HOSTS = ("x.com", "X.COM", "s.x.com", "ax.com", "x.com.evil", "com", "other.org")
+HOSTS = ("x.com", "X.COM", "s.x.com", "ax.com", "x.com.evil", "com", "other.org", "setter.example")
 
 
 def _norm(domain):
@@ -132,12 +132,12 @@ def _roundtrip(host, respond, cookie):
 
 def obligations(tier):
     thorough = tier == "thorough"
-    get = [dict(hl=h, dl=d) for h in range(0, (7 if thorough else 6)) for d in range(0, (5 if thorough else 4))]
+    get = [dict(hl=h, dl=d) for h in range(0, (10 if thorough else 8)) for d in range(0, (7 if thorough else 5))]
     get += [dict(hl=h, dl=d, two=True) for h in (1, 3) for d in (1, 2)]
     hist = [dict(nresp=n) for n in ((1, 2, 3) if thorough else (1, 2))] + [dict(nresp=1, merged=True), dict(nresp=2, merged=True),
                                                                             dict(nresp=1, client_cookie=True), dict(nresp=2, client_cookie=True)]
     return [
-        Obligation("J-get", j_get, get, bounds="host of 0..%d and domain of 0..%d symbolic ASCII characters; one or two stored domains" % (6 if thorough else 5, 4 if thorough else 3),
+        Obligation("J-get", j_get, get, bounds="host of 0..%d and domain of 0..%d symbolic ASCII characters; one or two stored domains" % (9 if thorough else 7, 6 if thorough else 4),
                    must_cover=["sent", "not-sent"], budget_s=1800, kernel=["SimpleCookieJar.get"]),
         Obligation("J-hist", j_hist, hist, bounds="histories of <=%d responses over names {a,b} x values {1,2} x domains %s (+ merged two-line form, + caller cookie), "
                    "each followed by handshakes to %s" % (3 if thorough else 2, DOMAINS, HOSTS), must_cover=["hist", "stored"], budget_s=2400, step_budget=400000,
